@@ -1568,7 +1568,9 @@ class Segments:
         """
         if self.segments:
             prev_seg = self.segments[-1]
-            if prev_seg.mode == segment.mode and prev_seg.encoding == segment.encoding:
+            if prev_seg.mode == segment.mode and prev_seg.encoding == segment.encoding \
+                    and not (segment.mode == consts.MODE_NUMERIC and prev_seg.char_count % 3) \
+                    and not (segment.mode == consts.MODE_ALPHANUMERIC and prev_seg.char_count % 2):
                 # Merge segment with previous segment
                 segment = _Segment(prev_seg.bits + segment.bits,
                                    prev_seg.char_count + segment.char_count,
